@@ -217,7 +217,7 @@ fn c11_producer_loop_step() {
     std::mem::forget(tc);
 }
 
-//@ prop: C11
+//@ prop: C11, C13
 //@ tier: quick
 //@ clause: cancellation is permanent and its first reason wins; every later credit or reconnect wait reports it; a resume is refused; offsets untouched
 //@ funcs: TransferControl::cancel; cancel_reason; is_cancelled; wait_for_credit; wait_for_reconnect; request_resume
